@@ -203,6 +203,7 @@ SCENARIOS = {
     "different-variables": [("a", slice(0, 2)), ("b", slice(1, 3))],
     "pickled-copy": [("a", slice(0, 2)), ("a_copy", slice(0, 2))],
     "three-loads": [("a", slice(0, 2)), ("b", slice(0, 4)), ("a", slice(1, 3))],
+    "three-variables": [("a", slice(0, 2)), ("b", slice(2, 4)), ("c", slice(1, 3))],
 }
 
 
@@ -216,7 +217,7 @@ def setup(names_needed):
     X.SerializableLock = TracedLock
     try:
         arrs, datas, variables = {}, {}, {}
-        for i, nm in enumerate(("a", "b")):
+        for i, nm in enumerate(("a", "b", "c")):
             arrs[nm], datas[nm] = build_image(fs, f"IMG-{nm}", seed=i + 1, array_cls=TracedArray)
             variables[nm] = to_xr(arrs[nm])
         if "a_copy" in names_needed:
